@@ -32,3 +32,39 @@ func vpH_C18_T_follower() {
 	vpQuiesce()
 	vpAssert("C18.stopped-after-stop", s.e.Status().State == StateStopped && !s.e.Status().IsLeader)
 }
+
+// vpH_C18_T_watch_closed: the follower's watch subscription is closed by the server at a moment when the
+// record has silently lapsed; the re-election round this triggers is either won, or lost to a third instance
+// that keeps the record. Either way LeaderID must converge to the id in the live record (the follower must
+// still have some means of observing the record afterwards).
+func vpH_C18_T_watch_closed() {
+	H := time.Second
+	vpSetOpt("rand-fixed", 1)
+	race := vpChoose("third-wins", 2) == 1
+	s := vpFollowingInstance(H, nil)
+	time.Sleep(700 * time.Millisecond)
+	vpQuiesce()
+	s.st.noEvents = true
+	s.st.write("env:other", "delete", nil, true, 0)
+	s.st.noEvents = false
+	s.st.closeWatchers()
+	if race {
+		time.Sleep(5 * time.Millisecond) // inside the round's initial jitter (10..100 ms)
+		s.st.write("env:third", "create", vpRecMk("third", "tok-third", 0), false, 0)
+	}
+	time.Sleep(4 * time.Second)
+	vpQuiesce()
+	vpCover("C18.watch-closed")
+	if race {
+		vpAssert("C18.follower-leaderid", s.e.Status().LeaderID == "third" && !s.e.Status().IsLeader)
+		// ... and keeps following: the record moves on to a fourth instance
+		s.st.write("env:fourth", "update", vpRecMk("fourth", "tok-fourth", 0), false, s.st.lastSeq)
+		time.Sleep(1200 * time.Millisecond)
+		vpQuiesce()
+		vpAssert("C18.follower-leaderid", s.e.Status().LeaderID == "fourth")
+	} else {
+		vpAssert("C18.leader-leaderid", s.e.Status().IsLeader && s.e.Status().LeaderID == "a")
+	}
+	stt := s.e.Status()
+	vpAssert("C18.flag-iff-state", stt.IsLeader == (stt.State == StateLeader))
+}
